@@ -231,6 +231,94 @@ def oracle(case, line):
     return bad
 
 
+def session_oracle(case, line):
+    """rate_bound_hierarchy and the consumer tie evaluated on a REAL session trace (harness/c12s.cc)."""
+    bad = []
+    if line.startswith(("CRASH", "ERR:", "BADCASE", "MISSING")):
+        return [("session-crash", "session run failed: " + line[:200])], {}
+    body, _, tail = line.partition(" || ")
+    kv = dict(t.split("=") for t in tail.split())
+    if kv.get("bad") != "0":
+        bad.append(("session-payload", "PIECE payload differs from the torrent content"))
+    toks = [[int(v) for v in t.split(":")] for t in body.split()]
+    # t raw pieces un o ua uu nA nI lt rate Hslave srate
+    n = len(toks)
+    use_slave = " slave=" in " " + case
+    nthr = 2 if use_slave else 1
+    pay = [0] * n
+    grant = [0] * n
+    sgrant = [0] * n
+    G = [t[3] + t[4] + t[5] + t[6] for t in toks]
+    maxg = 0
+    for k in range(1, n):
+        t, p = toks[k], toks[k - 1]
+        pay[k] = max(0, t[1] - 13 * (t[2] + 1))
+        if t[9] != p[9] or (p[10] == 0 and t[10] != 0):
+            el = 10**6 if p[10] == 0 else t[9] - p[9]
+            grant[k] = el * t[10] // 10**6
+            sgrant[k] = min(grant[k], el * t[12] // 10**6) if t[12] else grant[k]
+            maxg = max(maxg, grant[k])
+        # consumer tie: between ticks the throttle's books move by exactly what the connection moved
+        # (payload reported through node_used, the 13-byte headers through node_used_unthrottled)
+        if grant[k] == 0 and t[10] == p[10] and t[10] != 0:
+            d = G[k - 1] - G[k]
+            if d < pay[k] or d > t[1]:
+                bad.append(("session-consumer-report", "step ending %d us: the peer received %d bytes (>= %d payload) but the throttle's books moved by %d" % (t[0], t[1], pay[k], d)))
+                break
+        if t[10] != 0 and G[k] > 65536 * (t[7] + t[8]) + 3 * nthr * max(maxg, 1) + 65536:
+            bad.append(("session-burst", "at %d us the throttles hold %d, above the fixed burst allowance" % (t[0], G[k])))
+            break
+    # rate_bound_hierarchy on every window [i, j] during which the root is limited
+    done = False
+    for i in range(n):
+        if toks[i][10] == 0 or done:
+            continue
+        sp = sg = ss = 0
+        for j in range(i + 1, n):
+            if toks[j][10] == 0:
+                break
+            sp += pay[j]
+            sg += grant[j]
+            ss += sgrant[j]
+            if sp > G[i] + sg:
+                bad.append(("session-rate-bound", "window %d..%d us: %d payload bytes > %d held at its start + %d granted by the ticks in it" % (
+                    toks[i][0], toks[j][0], sp, G[i], sg)))
+                done = True
+                break
+            if use_slave and toks[j][12] and toks[i][12] == toks[j][12] and sp > toks[i][11] + ss:
+                bad.append(("session-slave-rate-bound", "window %d..%d us: %d payload bytes through the slave > %d held by it + %d (its share of the ticks)" % (
+                    toks[i][0], toks[j][0], sp, toks[i][11], ss)))
+                done = True
+                break
+    # not held back: unlimited -> every outstanding request is served in each step; limited -> the
+    # connection keeps being reactivated and uses most of what the ticks grant
+    total_pay = sum(pay)
+    if all(t[10] == 0 for t in toks[1:]):
+        if any(t[2] < 20 for t in toks[1:]) and "blocks=192/192" not in tail:
+            bad.append(("session-held-back", "unlimited upload did not serve the outstanding requests"))
+    elif all(t[10] != 0 for t in toks) and not use_slave:
+        g = sum(grant)
+        if total_pay + 65536 + 2 * maxg < g * 7 // 10:
+            bad.append(("session-held-back", "only %d payload bytes moved although the ticks granted %d" % (total_pay, g)))
+    return bad, dict(steps=n - 1, payload=total_pay, granted=sum(grant))
+
+
+def run_session(rep, tier, seed):
+    impl = ltv.build_harness("c12s", ["c12s.cc", "common/session.cc"], libs=["-lcrypto"])
+    cases = G.gen_session(seed, tier)
+    io = ltv.run_sharded(impl, cases, timeout=600)
+    tot = dict(cases=len(cases), steps=0, payload=0, granted=0)
+    for i, case in enumerate(cases):
+        o = io[i] if i < len(io) else "MISSING"
+        viol, st = session_oracle(case, o)
+        for k in ("steps", "payload", "granted"):
+            tot[k] += st.get(k, 0)
+        for kl, text in viol[:1]:
+            rep.violation("session level (real up_chunk under an upload limit): " + text, case="SESSION " + case, impl=o[:1500],
+                          theorem="rate_bound_hierarchy / consumer_step on a real session trace", klass=kl)
+    return tot
+
+
 def run(rep, tier, seed, replay):
     coq = ltv.coq_build("C12")
     rep.cov.update(obligations=coq["obligations"], discharged=coq["discharged"], checker_cmd=coq["checker_cmd"],
@@ -243,6 +331,13 @@ def run(rep, tier, seed, replay):
                        "evaluated on implementation outputs"]))
     model = ltv.build_model("C12")
     impl = ltv.build_harness("c12", ["c12.cc"])
+    if replay and json.load(open(replay))["case"].startswith("SESSION "):
+        impl_s = ltv.build_harness("c12s", ["c12s.cc", "common/session.cc"], libs=["-lcrypto"])
+        c = json.load(open(replay))["case"][8:]
+        o = ltv.run_sharded(impl_s, [c], timeout=600)[0]
+        for kl, text in session_oracle(c, o)[0][:1]:
+            rep.violation("session level: " + text, case="SESSION " + c, impl=o[:1500], theorem="rate_bound_hierarchy on a real session trace", klass=kl)
+        return
     if replay:
         cases = [json.load(open(replay))["case"]]
         stats = {"replay": 1}
@@ -287,6 +382,8 @@ def run(rep, tier, seed, replay):
             coq["discharged"], coq["obligations"], "; ".join(coq["lint"] + coq["bad_axioms"]), coq["log"][-1500:]),
             theorem="coq/C12/Properties.v", found_input=False)
     stats["impl_internal_errors"] = errs
+    if not replay:
+        stats["session_level"] = run_session(rep, tier, seed)
     rep.cov.update(evaluations=len(cases), distinct_nontrivial=len(nontrivial),
                    rule="cases = corpus + hand list + valid client streams + raw op streams (+ exhaustive small scope in thorough); "
                         "non-trivial = distinct case whose implementation trace has a consumption (x=), a tick, and at least one "
